@@ -185,6 +185,60 @@ def _chain_order(inserted):
     return out if len(out) == len(inserted) else None
 
 
+def _pop_symbol_origin(f, call):
+    """'arbitrary' when the third argument of pda_pop_push is bound by iterating the transition relation (for (p, a, u), Q1
+    in delta.items()), 'safe' when it ranges over a local list made of epsilon and of <stack>[-1] added under a test that
+    the stack is not empty (the stack being the second argument), None otherwise."""
+    stack_txt, sym = u(call.args[1]), call.args[2]
+    if not isinstance(sym, ast.Name):
+        return None
+    units = [f] + ([f.parent] if f.parent is not None else [])
+    for g in units:
+        for lp in ast.walk(g.node):
+            its = []
+            if isinstance(lp, ast.For):
+                its.append((lp.target, lp.iter))
+            if isinstance(lp, (ast.GeneratorExp, ast.ListComp, ast.SetComp, ast.DictComp)):
+                its += [(g0.target, g0.iter) for g0 in lp.generators]
+            for tg, it in its:
+                if sym.id not in {x.id for x in ast.walk(tg) if isinstance(x, ast.Name)}:
+                    continue
+                if not any(x is call for x in ast.walk(lp)):
+                    continue
+                if 'delta' in u(it):
+                    return 'arbitrary'
+                if isinstance(tg, ast.Name) and isinstance(it, ast.Name):
+                    # for u in pops:   pops = [epsilon];  if stack: pops.append(stack[-1])
+                    lst = it.id
+                    srcs, ok = [], True
+                    for st in walk_no_nested(f.node):
+                        if isinstance(st, ast.Assign) and len(st.targets) == 1 and isinstance(st.targets[0], ast.Name) and st.targets[0].id == lst:
+                            if isinstance(st.value, ast.List):
+                                srcs += [(x, None) for x in st.value.elts]
+                            else:
+                                ok = False
+                        if isinstance(st, ast.If):
+                            for b in st.body:
+                                if isinstance(b, ast.Expr) and isinstance(b.value, ast.Call) and isinstance(b.value.func, ast.Attribute) and b.value.func.attr == 'append' \
+                                        and u(b.value.func.value) == lst and b.value.args:
+                                    srcs.append((b.value.args[0], st.test))
+                    for st in walk_no_nested(f.node):
+                        if isinstance(st, ast.Expr) and isinstance(st.value, ast.Call) and isinstance(st.value.func, ast.Attribute) and st.value.func.attr in ('append', 'extend', 'insert') \
+                                and u(st.value.func.value) == lst and not any(st.value.args and st.value.args[0] is x for x, _ in srcs):
+                            ok = False
+                    if not ok or not srcs:
+                        return None
+                    for x, cond in srcs:
+                        tx = u(x)
+                        if tx in ('epsilon', 'P.epsilon') or tx.endswith('.epsilon'):
+                            continue
+                        if tx == stack_txt + '[-1]' and cond is not None and (u(cond) == stack_txt or u(cond).startswith(stack_txt + ' and') or u(cond) in ('len({}) > 0'.format(stack_txt), 'len({}) != 0'.format(stack_txt))):
+                            continue
+                        return None
+                    return 'safe'
+    return None
+
+
 def check_pop_push_guard(ctx, rep, funcs, rule='R-PDAFORM.guard'):
     """every pda_pop_push call is dominated by pda_can_pop_push on the same arguments"""
     n = 0
@@ -223,8 +277,16 @@ def check_pop_push_guard(ctx, rep, funcs, rule='R-PDAFORM.guard'):
                             ok = True
             if ok:
                 rep.holds(rule, f, c, 'dominated by pda_can_pop_push on the same arguments')
-            else:
+                continue
+            # no guard: where does the popped symbol come from?  A symbol read off the transition relation is arbitrary (the call
+            # raises when it is not on top); epsilon, or the top of a stack known to be non-empty, can always be popped
+            origin = _pop_symbol_origin(f, c) if len(c.args) >= 3 else None
+            if origin == 'safe':
+                rep.holds(rule, f, c, 'the popped symbol is epsilon or the top of the (non-empty) stack by construction')
+            elif origin == 'arbitrary':
                 rep.violates(rule, f, c, 'pda_pop_push({}) is not dominated by pda_can_pop_push on the same arguments: it raises when the top of the stack differs'.format(args))
+            else:
+                rep.undecided(rule, f, c, 'pda_pop_push({}) is not dominated by pda_can_pop_push and the origin of the popped symbol is not recognised'.format(args))
     return n
 
 
@@ -363,8 +425,36 @@ def check_phase_order(ctx, rep, f_pipeline, f_selector, f_checker, rule='R-PHASE
     """the five phases run in the same (Sipser) order in the pipeline, the exercise's phase selector and the checker's
     postcondition table; selector and checker key phase k with `phase >= k`"""
     seq = [nm for nm, _ in _call_sequence(ctx, f_pipeline, set(PHASES))]
+    table_form = False
+    if not seq:
+        # a table of phases run by a loop:  phases = ((name, f1), (name, f2), ...);  for name, phase in phases: phase(G)
+        for st in walk_no_nested(f_pipeline.node):
+            if not (isinstance(st, ast.Assign) and len(st.targets) == 1 and isinstance(st.targets[0], ast.Name) and isinstance(st.value, (ast.Tuple, ast.List))):
+                continue
+            funcs, pos = [], None
+            for el in st.value.elts:
+                parts = list(el.elts) if isinstance(el, (ast.Tuple, ast.List)) else [el]
+                hits = [(i, x.id) for i, x in enumerate(parts) if isinstance(x, ast.Name) and x.id in PHASES]
+                if len(hits) != 1 or (pos is not None and hits[0][0] != pos) or len(parts) != (1 if not isinstance(el, (ast.Tuple, ast.List)) else len(el.elts)):
+                    funcs = None
+                    break
+                pos = hits[0][0]
+                funcs.append((hits[0][1], len(parts), isinstance(el, (ast.Tuple, ast.List))))
+            if not funcs:
+                continue
+            tbl = st.targets[0].id
+            for lp in walk_no_nested(f_pipeline.node):
+                if isinstance(lp, ast.For) and isinstance(lp.iter, ast.Name) and lp.iter.id == tbl and not lp.orelse:
+                    tg = lp.target
+                    callee = tg.elts[pos].id if isinstance(tg, ast.Tuple) and len(tg.elts) == funcs[0][1] and isinstance(tg.elts[pos], ast.Name) else (tg.id if isinstance(tg, ast.Name) and not funcs[0][2] else None)
+                    called = [c for b in lp.body for c in ast.walk(b) if isinstance(c, ast.Call) and isinstance(c.func, ast.Name) and c.func.id == callee]
+                    unconditional = any(isinstance(b, ast.Expr) and isinstance(b.value, ast.Call) and isinstance(b.value.func, ast.Name) and b.value.func.id == callee for b in lp.body)
+                    no_exit = not any(isinstance(x, (ast.Break, ast.Continue, ast.Return)) for b in lp.body for x in ast.walk(b))
+                    if callee and called and unconditional and no_exit:
+                        seq = [nm for nm, _, _ in funcs]
+                        table_form = True
     if seq == PHASES:
-        rep.holds(rule, f_pipeline, 'phase sequence', 'pipeline applies the five phases in the order start, epsilon, unit, length-two, terminals')
+        rep.holds(rule, f_pipeline, 'phase sequence', 'pipeline applies the five phases in the order start, epsilon, unit, length-two, terminals' + (' (a table of phases run by one loop)' if table_form else ''))
     else:
         rep.violates(rule, f_pipeline, 'phase sequence', 'the pipeline applies the phases in the order {} instead of {}'.format(seq, PHASES))
     # straight-line: each phase call dominates the next
